@@ -30,7 +30,7 @@ REQUIRED = ["eval:make_counterfactual_graph", "eval:merge_pw", "C18:probabilitie
 TIMEOUT = {"quick": 900, "thorough": 7200}
 
 
-def run_case(ctx, gd, ev, cls, via="cg"):
+def run_case(ctx, gd, ev, cls, via="cg", rng=None, force_again=False):
     from y0.algorithm.identify.cg import make_counterfactual_graph
 
     g = gg.to_nx(gd)
@@ -47,11 +47,44 @@ def run_case(ctx, gd, ev, cls, via="cg"):
     except Exception as e:  # noqa: BLE001 -- the statement does not promise totality; counted
         kernel.count(f"C18:driver-saw-{type(e).__name__}")
     merges = kernel.LOG.counters.get("eval:merge_pw", 0) - n0
+    if via == "cg" and res is not None and rng is not None and (force_again or rng.random() < 0.3):
+        # the caller edits what it was handed - the returned graph and event, and a parallel-worlds graph it asked for
+        # through the public helper - and then asks the same question again (same graph object or an equal new one)
+        from y0.algorithm.identify.cg import extract_interventions, make_parallel_worlds_graph
+        from y0.dsl import Variable
+
+        shown = (gev.key(gev.from_event(res[1])) if res[1] is not None else None, sorted(map(str, res[0].nodes())))
+        try:
+            cg_, ev_ = res
+            for n_ in list(cg_.nodes())[:2]:
+                cg_.add_directed_edge(Variable("__junk"), n_)
+                cg_.add_undirected_edge(Variable("__junk2"), n_)
+            if isinstance(ev_, dict):
+                ev_.clear()
+            with kernel.quiet():
+                pw = make_parallel_worlds_graph(g, extract_interventions(gev.to_event(ev)))
+            nodes_ = list(pw.nodes())
+            for a_, b_ in zip(nodes_, nodes_[1:]):
+                pw.add_directed_edge(b_, a_)
+                pw.add_undirected_edge(a_, b_)
+            pw.add_node(Variable("__junk3"))
+        except Exception:  # noqa: BLE001
+            kernel.count("C18:could-not-edit-the-first-answer")
+        kernel.count("C18:asked-again-after-editing-the-first-answer")
+        kernel.LOG.reset_case({"graph": gd, "event": ev, "via": via, "again": True})
+        try:
+            make_counterfactual_graph(g if rng.random() < 0.5 else gg.to_nx(gd), gev.to_event(ev))
+        except Exception as e:  # noqa: BLE001
+            kernel.count(f"C18:driver-saw-{type(e).__name__}")
+        res = None
+        relabelled, cf_nodes = shown
+    else:
+        relabelled = gev.key(gev.from_event(res[1])) if res and res[1] is not None else None
+        cf_nodes = sorted(map(str, res[0].nodes())) if res else None
     worlds = {tuple(map(tuple, c[1])) for c in ev}
     ctx.case(f"{gg.key(gd)}|{gev.key(ev)}|{via}", merges > 0 and len(ev) >= 2 and len(worlds) >= 2,
              sample={"graph": gd, "event": gev.key(ev), "class": cls, "merges": merges,
-                     "relabelled": gev.key(gev.from_event(res[1])) if res and res[1] is not None else None,
-                     "cf_nodes": sorted(map(str, res[0].nodes())) if res else None})
+                     "relabelled": relabelled, "cf_nodes": cf_nodes})
 
 
 def run_shard(ctx):
@@ -66,7 +99,7 @@ def run_shard(ctx):
         if not ev or cls == "contradictory_pair":
             continue
         classes[cls] = classes.get(cls, 0) + 1
-        run_case(ctx, gd, ev, cls, via="cg" if i % 4 else "id_star")
+        run_case(ctx, gd, ev, cls, via="cg" if i % 4 else "id_star", rng=rng)
     ctx.extras["event_classes"] = classes
 
 
@@ -80,7 +113,10 @@ def replay(case):
 
     gd = case["graph"]
     gd = {"nodes": gd["nodes"], "di": gd["di"], "bi": gd["bi"]}
-    run_case(_C(), gd, [[c[0], [list(w) for w in c[1]], c[2]] for c in case["event"]], "replay", via=case.get("via", "cg"))
+    import random
+
+    run_case(_C(), gd, [[c[0], [list(w) for w in c[1]], c[2]] for c in case["event"]], "replay", via=case.get("via", "cg"),
+             rng=random.Random(0) if case.get("again") else None, force_again=bool(case.get("again")))
 
 
 def install_for_suite():
